@@ -278,6 +278,23 @@ pub fn run(tier: Tier) -> i32 {
             }
         }
     }
+    // 5. multi-byte characters at every offset of printed forms (inserted and replacing a
+    //    character): a parser that cuts the text at byte offsets must not cut inside one
+    //    (added after the seeded change C10-e)
+    for base in ["12-0000-0000-0000", "4294967295-0249-FFFF-0255", "1-2-3-4", "0-0000-0000-0000", "12345-0100-00A0-0001"] {
+        let chars: Vec<char> = base.chars().collect();
+        for at in 0..=chars.len() {
+            for wide in ["\u{e9}", "\u{20ac}", "\u{1f600}", "\u{e9}\u{20ac}"] {
+                let head: String = chars[..at].iter().collect();
+                let tail: String = chars[at..].iter().collect();
+                structural.push(format!("{head}{wide}{tail}"));
+                if at < chars.len() {
+                    let tail: String = chars[at + 1..].iter().collect();
+                    structural.push(format!("{head}{wide}{tail}"));
+                }
+            }
+        }
+    }
     for t in &structural {
         check_parse(t, &mut total);
     }
